@@ -46,7 +46,10 @@ fn statements(body: &[u8]) -> Vec<Vec<Item>> {
             cur = Vec::new();
             i += 1;
             expect_ref = false;
-        } else if b==b';' || b==b' ' {
+        } else if b==b';' {
+            cur.push(Item::Ch(b';'));     // kept until the guard parentheses are judged: `A%;(XY)` is not a subscript
+            i += 1;
+        } else if b==b' ' {
             i += 1;
         } else if b>=128 {
             cur.push(Item::Tok(b));
@@ -81,6 +84,8 @@ fn statements(body: &[u8]) -> Vec<Vec<Item>> {
             let callee = k>0 && match &st[k-1] { Item::Name(_) => true, Item::Tok(t) => *t>=0xd2 || *t==FN || *t==0xc0 || *t==0xc3 || *t==0xd7, _ => false };   // after `)` a parenthesised name is a juxtaposed PRINT item, never a subscript
             if lone && !callee { st.remove(k+2); st.remove(k); k = k.saturating_sub(1); } else { k += 1; }
         }
+        // the PRINT separator itself carries no meaning for the comparison (the minifier drops it where it can)
+        st.retain(|x| *x != Item::Ch(b';'));
     }
     out
 }
